@@ -12,7 +12,7 @@ import common as C
 sc = C.mkscratch("setup")
 try:
     mod = C.assemble(sc)
-    for pkg in ("drvproto", "drvstore"):
+    for pkg in ("drvproto", "drvstore", "drvcompact"):
         C.gobuild(mod, pkg, sc + "/" + pkg)
     print("harness builds")
 finally:
